@@ -3,6 +3,8 @@ import itertools
 
 import z3
 
+from vlib import symex
+
 from vlib.symex import (Ctx, SInt, _z, conc, decide, explore, Inconclusive, check_sat)
 from checks import stft_common as sc
 from checks import si_common as si
@@ -106,11 +108,13 @@ def run_stft_hist(cfg):
                 off = off + ci
             o.finalize()
         except Exception as e:
+            symex.guard(e)
             return ('exc', 'streaming: %s: %s' % (type(e).__name__, e))
         o2, fr2 = sc.mk_stft(ns, L, S, style, kaldi, 'B')
         try:
             o2.compute_full(sc.sig(z3.IntVal(0), SInt(N)))
         except Exception as e:
+            symex.guard(e)
             return ('exc', 'compute_full: %s: %s' % (type(e).__name__, e))
         return ('ok', fr1, fr2)
 
@@ -238,6 +242,7 @@ def _step(cfg, ns, hist, out, probe):
         try:
             o.compute_chunk(sc.sig(T, SInt(cl)))
         except Exception as e:
+            symex.guard(e)
             return ('exc', '%s: %s' % (type(e).__name__, e))
         T2 = T + cl
         avail = pl + T2 - L
@@ -318,6 +323,7 @@ def _final(cfg, ns, hist, out):
         try:
             o.finalize()
         except Exception as e:
+            symex.guard(e)
             return ('exc', '%s: %s' % (type(e).__name__, e))
         N = T
         nf_full = z3.If(N >= L // 2 + 1, (N + S // 2) / S, 0)
@@ -393,6 +399,7 @@ def run_stft_fbf(cfg):
             Nc = SInt(N).__index__()
             ns['frame_by_frame_calculation'](o, sc.sig(z3.IntVal(0), Nc), SInt(cs).__index__())
         except Exception as e:
+            symex.guard(e)
             return ('exc', 'frame_by_frame: %s: %s' % (type(e).__name__, e))
         o2, fr2 = sc.mk_stft(ns, L, S, style, kaldi, 'B')
         o2.compute_full(sc.sig(z3.IntVal(0), Nc))
